@@ -84,20 +84,20 @@ func (r *runner) account(o op) *harness.Account {
 	return r.wits[i].Val
 }
 
-func (r *runner) build(o op, earlier []op) *harness.TxSpec {
+func (r *runner) build(o op, earlier []op) (*harness.TxSpec, string) {
 	r.seq++
 	memo := fmt.Sprintf("m%d", r.seq)
 	x := r.ext[o.Ext]
 	u := r.account(o)
 	switch o.Kind {
 	case "lock":
-		return xch.EthLock(u, x.Raw, memo)
+		return xch.EthLock(u, x.Raw, memo), ""
 	case "erc20lock":
-		return xch.ERC20Lock(u, x.Raw, memo)
+		return xch.ERC20Lock(u, x.Raw, memo), ""
 	case "redeem":
-		return xch.EthRedeem(u, ethcmn.BytesToAddress(r.w.EthUsers[0].Addr.Bytes()), x.Raw, memo)
+		return xch.EthRedeem(u, ethcmn.BytesToAddress(r.w.EthUsers[0].Addr.Bytes()), x.Raw, memo), ""
 	case "erc20redeem":
-		return xch.ERC20Redeem(u, ethcmn.BytesToAddress(r.w.EthUsers[0].Addr.Bytes()), x.Raw, memo)
+		return xch.ERC20Redeem(u, ethcmn.BytesToAddress(r.w.EthUsers[0].Addr.Bytes()), x.Raw, memo), ""
 	}
 	// report
 	idx := int64(0)
@@ -136,15 +136,18 @@ func (r *runner) build(o op, earlier []op) *harness.TxSpec {
 	case "third":
 		locker = r.w.Users[2].Addr
 	}
-	return xch.ReportFinality(u, xch.TrackerName(x.Raw), locker, idx, o.Yes, memo)
+	return xch.ReportFinality(u, xch.TrackerName(x.Raw), locker, idx, o.Yes, memo), addrText(locker)
 }
 
 // block executes one event and runs the oracle on it.
 func (r *runner) block(ev event) error {
 	r.m.beginBlock()
 	var txs []*harness.TxSpec
+	lockers := make([]string, len(ev.Ops))
 	for i, o := range ev.Ops {
-		txs = append(txs, r.build(o, ev.Ops[:i]))
+		t, l := r.build(o, ev.Ops[:i])
+		txs = append(txs, t)
+		lockers[i] = l
 	}
 	res, err := r.x.BlockAt(harness.BlockSpec{Txs: txs}, false, nil)
 	if err != nil {
@@ -156,7 +159,7 @@ func (r *runner) block(ev event) error {
 	for i, o := range ev.Ops {
 		x := r.ext[o.Ext]
 		name := hex.EncodeToString(xch.TrackerName(x.Raw).Bytes())
-		r.m.applyTx(o, x, name, addrText(r.account(o).Addr), res.Txs[i].Code)
+		r.m.applyTx(o, x, name, addrText(r.account(o).Addr), lockers[i], res.Txs[i].Code)
 		if r.log != nil {
 			fmt.Fprintf(r.log, "  h=%d %-60s check=%d deliver=%d %s\n", res.Height, o.name(), r.x.Checks[len(r.x.Checks)-1][i].Code, res.Txs[i].Code, res.Txs[i].Log)
 		}
